@@ -98,7 +98,7 @@ PROPS = {
  },
  "C07": {
   "level": "exploration",
-  "technique": "structured mutation of valid OVMB / OVM-ASCII files (numeric fields := boundary values, payload vs declared length, chunk/line drop/duplicate/splice, byte edits) read under ASan+UBSan+range-checked vectors with a capped operator new; validity walk on every success; driver watchdog for termination",
+  "technique": "structured mutation of valid OVMB / OVM-ASCII files (numeric fields := boundary values, payload vs declared length, chunk/line drop/duplicate/splice, byte edits) and hostile re-encodings by an independent encoder (inconsistent spans with matching payloads, sub-headers contradicting the payload) read under ASan+UBSan+range-checked vectors with a capped operator new; validity walk on every success; driver watchdog for termination",
   "parts": [
     {"name": "rel", "flavor": "asan-rel", "monitor": "C07", "cases": {"quick": 400, "thorough": 6000}, "case_timeout": 180},
   ],
@@ -236,7 +236,7 @@ PROPS = {
  },
  "C19": {
   "level": "exploration",
-  "technique": "independent scalar re-computation (long double) of every VectorT operation over integer lattices (all ordered pairs) and sampled/special floating-point values under UBSan; geometric queries vs formulas on generated meshes",
+  "technique": "independent scalar re-computation (long double) of every VectorT operation over integer lattices (all ordered pairs), sampled/special floating-point values and all ordered pairs of distinct scalar types, under UBSan; geometric queries vs formulas on generated meshes (tets, pyramids, prisms, octahedra, free polygons)",
   "parts": [
     {"name": "vec", "flavor": "asan-dbg", "monitor": "C19", "sub": "vec", "cases": {"quick": 336, "thorough": 2400}},
     {"name": "geo", "flavor": "asan-dbg", "monitor": "C19", "sub": "geo", "cases": {"quick": 300, "thorough": 5000}},
@@ -249,7 +249,7 @@ PROPS = {
  },
  "C20": {
   "level": "exploration",
-  "technique": "ThreadSanitizer on 2/4/8/16 barrier-released reader threads each executing the complete table of const queries in its own random order on one shared const mesh; per-query results compared with a single-threaded reference",
+  "technique": "ThreadSanitizer on 2/4/8/16 barrier-released reader threads each executing the complete table of const queries (traversal, lookups, geometry, property reads through handles, by-name property lookups, registry counts) in its own random order on one shared const mesh; per-query results compared with a single-threaded reference",
   "parts": [
     {"name": "tsan", "flavor": "tsan", "monitor": "C20", "cases": {"quick": 48, "thorough": 1000}, "case_timeout": 900},
   ],
